@@ -48,7 +48,7 @@ cache, a lost persistence step, wrong rounding ...) such that
      point, a multi-step sequence of operations, an unusual input or parameter combination, a particular channel type or
      backend, or two cooperating sites that each look fine alone. NOT something ordinary use would expose at once.
   4. you write a demonstration: a new Go test file (package-internal or external, your choice) that FAILS with your change
-     and PASSES without it (verify both directions with `git stash`/`git apply -R`), deterministic, runs in < 60 s.
+     and PASSES without it (verify both directions with `git apply -R` / `git apply`; NEVER use `git stash`: stashes are shared between all worktrees of the repository and other people are working in theirs), deterministic, runs in < 60 s.
 
 Earlier rounds already used the mechanisms below for this property — choose a DIFFERENT mechanism, in a different function /
 file where possible, and a different cell of the property's quantifier (another clause of the statement if it has several):
